@@ -663,7 +663,7 @@ impl Monitor for C10 {
             out.bucket("iterator_protocol");
             let r = guard(|| {
                 let mut bad: Vec<String> = Vec::new();
-                let c = ont.iter().count();
+                let c = ont.iter().take(n + 10).count();
                 if c != n {
                     bad.push(format!("iter().count() = {c}, len() = {n}"));
                 }
@@ -681,7 +681,7 @@ impl Monitor for C10 {
                         }
                     }
                     let (lo, hi) = it.size_hint();
-                    let rest = it.count();
+                    let rest = it.take(n + 10).count();
                     let exp_rest = n.saturating_sub(k);
                     if rest != exp_rest {
                         bad.push(format!("after {k} next() calls count() = {rest}, expected {exp_rest} (len {n})"));
@@ -689,12 +689,12 @@ impl Monitor for C10 {
                     if lo > exp_rest || hi.is_some_and(|h| h < exp_rest) {
                         bad.push(format!("after {k} next() calls size_hint() = ({lo}, {hi:?}), {exp_rest} terms remain"));
                     }
-                    let sk = ont.iter().skip(k).count();
+                    let sk = ont.iter().skip(k).take(n + 10).count();
                     if sk != exp_rest {
                         bad.push(format!("iter().skip({k}).count() = {sk}, expected {exp_rest}"));
                     }
                     // the skipped part and the rest together are all terms, none twice
-                    let rest_ids: Vec<u32> = ont.iter().skip(k).map(|t| t.id().as_u32()).collect();
+                    let rest_ids: Vec<u32> = ont.iter().skip(k).take(n + 10).map(|t| t.id().as_u32()).collect();
                     let mut all = seen.clone();
                     let mut dup = false;
                     for x in &rest_ids {
